@@ -1,4 +1,5 @@
 """C08 - CFG membership is derivability from the start symbol."""
+from vf import values
 from vf import core, extract
 from vf.gen import cfg as gcfg
 from vf.props.cfgcommon import ref_of, tags_of, word_values
@@ -99,7 +100,7 @@ def run_case(c, stats):
         if w.count("zz_foreign") > 1:
             continue
         total += 1
-        call(g.contains, list(w))
+        call(g.contains, values.word_form(w, total))
     call(lambda: [] in g)
     call(lambda: terms[:1] in g)
     call(g.generate_epsilon)
